@@ -105,7 +105,11 @@ def respell(r, tok):
         if name == 'BlockComment':
             ind = tok.indent
             lines = tok.value.split('\n')
-            style = r.choice(['tight', 'wide'])
+            style = r.choice(['tight', 'wide', 'ragged'])
+            if style == 'ragged' and ind and len(lines) > 1:
+                # an indented block comment may indent every line differently; the first line's blanks are the token's indent
+                inds = [ind] + [r.choice([' ', '  ', '\t', '   \t', ind + ' ']) for _ in lines[1:]]
+                return '\n'.join(f'{i}; {ln}' if ln.rstrip('\r') else f'{i};{ln}' for i, ln in zip(inds, lines))
             if style == 'tight' and all(not ln or not ln.startswith(' ') for ln in lines):
                 return '\n'.join(f'{ind};{ln}' for ln in lines)          # ';foo' instead of '; foo'
             return '\n'.join(f'{ind}; {ln}' if ln.rstrip('\r') else f'{ind};{ln}' for ln in lines)
